@@ -58,7 +58,7 @@ const httpHandlerSig = "func(w net/http.ResponseWriter, r *net/http.Request)"
 func httpHandlerClosures(p *core.Prog) []handlerClosure {
 	var out []handlerClosure
 	for _, fn := range p.LibFuncs("httpgrpc") {
-		if fn.Parent() == nil {
+		if core.ParentOf(fn) == nil {
 			continue
 		}
 		ps := fn.Signature.Params()
@@ -68,7 +68,7 @@ func httpHandlerClosures(p *core.Prog) []handlerClosure {
 		if core.TypeStr(ps.At(0).Type()) != "net/http.ResponseWriter" || core.TypeStr(ps.At(1).Type()) != "*net/http.Request" {
 			continue
 		}
-		par := fn.Parent()
+		par := core.ParentOf(fn)
 		hc := handlerClosure{Fn: fn, Parent: par}
 		found := false
 		for _, pp := range par.Params {
